@@ -8,19 +8,19 @@ V = pathlib.Path(__file__).resolve().parent.parent
 P = {
     "C01": dict(
         tech="template-AST dispatch exhaustiveness, error-propagation and reject-before-emit ordering rules over the Jinja AST + embedded C/C++/Python token stream",
-        text="Decides structural necessary conditions on every path of the serializer templates of all three languages: kind dispatch is exhaustive over the pydsdl class hierarchy and closed by a generation failure; over-long arrays and bad union tags are rejected before any byte of the field is written; every fallible support call has its error tested and returned; each emitter advances the cursor once, after its write. Bit-exact wire representation (a numerical result over all values and offsets) is declined.",
+        text="Decides structural necessary conditions on every path of the serializer templates of all three languages: kind dispatch is exhaustive over the pydsdl class hierarchy and closed by a generation failure; over-long arrays and bad union tags are rejected before any byte of the field is written; every fallible support call has its error tested and returned; each emitter advances the cursor once, after its write; the bulk-copy selector is_zero_cost_primitive admits only standard-width integers / float32-64 on little-endian; once a clamping temporary exists the raw field is not read again; the compile-time offset set given to per-element emitters covers every element position. Bit-exact wire representation (a numerical result over all values and offsets) is declined.",
         note="Trusted: bundled Jinja parser, pydsdl class hierarchy. Decides shape, not values.", ref="4/C01"),
     "C02": dict(
         tech="template-AST dominance rules: bounded reads, representation checks before use, consumed-size provenance",
-        text="Decides, on every template path of the deserializers: dispatch exhaustiveness; raw buffer reads in C lie under a cursor-vs-capacity comparison with a zeroing else; array length / union tag / delimiter header are validated with an error exit before they are used; the reported size is min(cursor, capacity). Decoded values for all byte strings are declined (numerical).",
+        text="Decides, on every template path of the deserializers: dispatch exhaustiveness; raw buffer reads in C lie under a cursor-vs-capacity comparison with a zeroing else; array length / union tag / delimiter header are validated with an error exit before they are used; the reported size is min(cursor, capacity); the nested window of a composite is bounded by the (validated) size variable and the delimiter header is compared with what remains after the header was consumed; zero-cost predicate and element offset sets as for C01. Decoded values for all byte strings are declined (numerical).",
         note="Trusted: bundled Jinja parser. Path-insensitive over Jinja guards (over-approximation asks for more guards, never fewer).", ref="4/C02"),
     "C03": dict(
         tech="sibling-agreement checks between serializer/deserializer macro pairs and between C, C++ and Python dispatch tables; option-scope guard rule",
-        text="Decides necessary conditions of agreement: writer and reader macros of each kind branch on the same Jinja conditions and advance the cursor by the same expression; the three languages agree on the kind set and on taking prefix/header widths and capacities from the model; LITTLE_ENDIAN / assert options only select between an aligned fast path and the generic call or emit asserts. Equality of bytes/values across codecs needs execution and is declined.",
+        text="Decides necessary conditions of agreement: writer and reader macros of each kind branch on the same Jinja conditions and advance the cursor by the same expression; the three languages agree on the kind set and on taking prefix/header widths and capacities from the model; LITTLE_ENDIAN / assert options only select between an aligned fast path and the generic call or emit asserts; single-language specialisations (zero-cost predicate, clamped-temporary use, element offset sets) hold in each language. Equality of bytes/values across codecs needs execution and is declined.",
         note="Trusted: bundled Jinja parser.", ref="4/C03"),
     "C04": dict(
         tech="template-AST dominance and consistent-enumeration rules (write bound, index bound, union index, replace-not-append, destroy-before-emplace)",
-        text="Decides on every template path: raw buffer writes of C serializers are dominated by the unconditional capacity check; count bounds equal declared array dimensions; every loop in a C++ union template that relates fields to tag numbers iterates the same unfiltered sequence; C++ array deserialization empties the container before appending; placement-new in the C++14 union is preceded by destroy_current() in members callable on live objects. Absence of UB/leaks at run time is declined.",
+        text="Decides on every template path: raw buffer writes of C serializers are dominated by the unconditional capacity check; count bounds equal declared array dimensions; every loop in a C++ union template that relates fields to tag numbers iterates the same unfiltered sequence; C++ array deserialization empties the container before appending; placement-new in the C++14 union is preceded by destroy_current() in members callable on live objects and the destructor call is skipped for primitive scalars only; nested deserializers get a window bounded by the validated size. Absence of UB/leaks at run time is declined.",
         note="Trusted: bundled Jinja parser; C/C++ text is tokenised, not compiled.", ref="4/C04"),
     "C05": dict(
         tech="unit (bits vs bytes) inference and def-use agreement over template expressions; sibling agreement across languages",
@@ -47,8 +47,8 @@ P = {
         text="Decides: every piece of state that outlives one generated file and is written inside the per-file call graph is reset unconditionally at the per-file entry, or is a memo keyed by all its inputs, or never reaches text; each type is rendered with a fresh context and templates do not write shared namespaces. Byte-equality alone-vs-together is declined.",
         note="Trusted: CPython ast; engine call graph.", ref="4/C10"),
     "C11": dict(
-        tech="who-may-construct / who-may-write ownership rules over the Python AST",
-        text="Decides: a type's relative path is built only in IncludeGenerator.make_path and all consumers obtain it from there with the same extension source; tree links and the type->path map are written only in their dedicated methods; output paths are joined onto the base output path only. Injectivity and tree shape for all type sets are declined.",
+        tech="who-may-construct / who-may-write ownership rules and argument-provenance (data-flow by parameter position, no source-text matching) over the Python AST",
+        text="Decides: a type's relative path is built only in IncludeGenerator.make_path and all consumers obtain it from there with the same extension source; tree links and the type->path map are written only in their dedicated methods; output paths are joined onto the base output path only; every ancestor namespace of a type is indexed and linked to its parent; the read-through factory is the only constructor of Namespace objects; traversal generators recurse unconditionally. Injectivity and tree shape for all type sets are declined.",
         note="Trusted: CPython ast.", ref="4/C11"),
     "C12": dict(
         tech="must-pass-through (overwrite gate dominates every create/truncate) + gate-shape + post-processor ordering rules",
@@ -76,15 +76,15 @@ P = {
         note="Trusted: bundled Jinja parser, PyYAML.", ref="4/C17"),
     "C18": dict(
         tech="dominance rules on the Python data-object template (admission check dominates backing-field assignment; union exclusivity loops)",
-        text="Decides on every path of py/templates/base.j2: each setter's assignment to the backing field is dominated by the kind's admission check with ValueError on the other branch; __init__ routes through setters; union setters clear every other option over the unfiltered field list; the pickled model is the generating type and _restore_constant_ inverts filter_pickle's layers. Run-time object round trips are declined.",
+        text="Decides on every path of py/templates/base.j2: each setter's assignment to the backing field is dominated by the kind's admission check with ValueError on the other branch; __init__ routes through setters; union setters clear every other option over the unfiltered field list and only after the new value passed validation; update_from_builtin / _to_builtin_impl walk the unfiltered field list, skip a field only when the source has no entry for it, apply every kind and reject leftovers; the pickled model is the generating type and _restore_constant_ inverts filter_pickle's layers. Run-time object round trips are declined.",
         note="Trusted: bundled Jinja parser; Python text in templates is tokenised line-wise.", ref="4/C18"),
     "C19": dict(
         tech="confinement of the lexer/parser modifications: regex-AST rule on lexer alternatives, guard rule on autoindent(), shape rule on the extensions",
-        text="Decides that Nunavut's modifications cannot be reached by input without the marker: every non-stock lexer alternative requires a literal `*` after the start string; autoindent() is called only under token.value.endswith('*'); lineprefix nodes are built only there; assert/ifuses produce ordinary conditionals. Output equivalence with upstream on all templates is declined (upstream snapshot unavailable offline).",
+        text="Decides that Nunavut's modifications cannot be reached by input without the marker: every non-stock lexer alternative requires a literal `*` after the start string; the unmarked alternative of every block opener (raw, endraw, <tag>_begin) is built on the same lstrip-aware prefix expression; autoindent() is called only under token.value.endswith('*'); lineprefix nodes are built only there; assert/ifuses produce ordinary conditionals. Output equivalence with upstream on all templates is declined (upstream snapshot unavailable offline).",
         note="Trusted: CPython ast, re._parser.", ref="4/C19"),
     "C20": dict(
         tech="taint + guard analysis of HTML templates (autoescape resolution, escape on every DSDL free-text sink), per-block tag balance, anchor sibling agreement",
-        text="Decides: where autoescaping is off for a template, every output of DSDL free text passes through an escaping filter and markup-returning filters escape what they interpolate; static markup of each Jinja block is balanced; url_from_type and tag_id build the same anchor. Well-formedness of complete pages is declined.",
+        text="Decides: where autoescaping is off for a template, every output of DSDL free text passes through an escaping filter and markup-returning filters escape what they interpolate; static markup of each Jinja block is balanced; url_from_type and tag_id build the same anchor; the link does not hard-code the namespace page name, is prefixed by the depth of the containing page, and sends a service's request/response to the service's own entry. Well-formedness of complete pages is declined.",
         note="Trusted: bundled Jinja parser, html.parser tokenizer for static markup.", ref="4/C20"),
 }
 
